@@ -1,6 +1,7 @@
 // Engine "tcp": stream safety under drops/delays (C05), progress under queue
 // made drops (C06), path MTU (C20).
 #include "core.hpp"
+#include <array>
 #include "net.hpp"
 #include "export.hpp"
 #include "models/queue_model.hpp"
@@ -910,10 +911,13 @@ struct Tcp
 		std::vector<std::pair<int64_t, uint64_t>> got[3];
 		std::vector<uint8_t> rbuf[3];
 		udp::endpoint from[3];
+		// one-way delays (size, hash, time sent / received), for the lower bound along the configured route
+		std::vector<std::array<int64_t, 3>> dg_sent, dg_got;
 		std::function<void(int)> recv = [&](int d) {
 			sb[d]->async_receive_from(asio::buffer(rbuf[d]), from[d], [&, d](error_code const& ec, std::size_t n) {
 				++ctx.handlers;
 				if (ec) return;
+				if (d == 0) dg_got.push_back({int64_t(n), int64_t(hash_bytes(rbuf[d].data(), n)), now_ns()});
 				got[d].emplace_back(int64_t(n), hash_bytes(rbuf[d].data(), n));
 				recv(d);
 			});
@@ -983,6 +987,7 @@ struct Tcp
 			{
 				if (int64_t(n) != size) fail("mtu.udp.send_count", "send_to reported " + std::to_string(n) + " for a datagram of " + std::to_string(size));
 				bool const expect = !(state == 1 && size > mtu);
+				if (dst == 0) dg_sent.push_back({size, int64_t(hash_bytes(data.data(), data.size())), now_ns()});
 				expected[dst].push_back({size, hash_bytes(data.data(), data.size()), expect, mtu});
 				if (!expect) ctx.hit("udp_df_discard");
 				if (state == 1 && size <= mtu) ctx.hit("udp_df_within_mtu");
@@ -995,6 +1000,31 @@ struct Tcp
 		next();
 		sim->run();
 		error_code cec;
+		if (!multi && g_queue_export)
+		{
+			// C09, end to end: no datagram crosses the route from A to B faster than the latencies and serialisation times
+			// of the hops the configuration puts there (A's outgoing chain, the A->B network chain, B's incoming chain)
+			std::vector<HopSpec> route = net.out_spec[addrA];
+			auto const ps = net.pair_spec.find({addrA, addrB});
+			if (ps != net.pair_spec.end()) route.insert(route.end(), ps->second.begin(), ps->second.end());
+			auto const& in = net.in_spec[addrB];
+			route.insert(route.end(), in.begin(), in.end());
+			std::vector<bool> used(dg_sent.size(), false);
+			for (auto const& g : dg_got)
+				for (size_t i = 0; i < dg_sent.size(); ++i)
+				{
+					if (used[i] || dg_sent[i][0] != g[0] || dg_sent[i][1] != g[1]) continue;
+					used[i] = true;
+					int64_t bound = 0;
+					for (auto const& h : route)
+						if (h.kind == HopSpec::Queue) bound += h.lat_ns + (h.bw > 0 ? int64_t((double(g[0] + 28) * 1e9) / double(h.bw)) - 1 : 0);
+					if (g[2] - dg_sent[i][2] < bound)
+						fail("queue.route.lower_bound", "a datagram of " + std::to_string(g[0]) + " bytes sent at " + std::to_string(dg_sent[i][2]) + " arrived at " + std::to_string(g[2])
+							+ ", sooner than the latencies and serialisation times of the hops on its route allow (" + std::to_string(bound) + " ns)");
+					ctx.hit("udp_one_way_delay_checked");
+					break;
+				}
+		}
 		if (c20)
 		{
 			// loss-free route for this part: exactly the expected datagrams arrive, whole and in order
@@ -1185,7 +1215,7 @@ struct Tcp
 		ctx.hit("drop_notifications_seen_by_probes", qdrops);
 		ctx.nontrivial = total_delivered > 0 && (fired > 0 || qdrops > 0 || ctx.cnt.count("reconnect") || c20);
 
-		if (c20 || c19) udp_part();
+		if (c20 || c19 || g_queue_export) udp_part();
 
 		ctx.sim_ns = now_ns();
 		export_queues(net);
